@@ -364,3 +364,5 @@ func (f *vFakeOAuth2) attach(w *vWorld) {
 }
 
 func newU2FChallenge() (*u2f.Challenge, error) { return u2f.NewChallenge(u2fAppID, u2fTrustedFacets) }
+
+func vB64Dec(s string) ([]byte, error) { return base64.RawURLEncoding.DecodeString(s) }
